@@ -35,6 +35,7 @@ PROFILES = {
     'subst':     dict(BASE, pGuardCancel=300, pGuardIssue=350, pIssue=0, maxBatch=1, wImmediate=5),      # single requests that guards veto and replace
     'mirror':    dict(BASE, verboseMethods=1, logAnswers=1, structDump=1, pGuardCancel=100, pGuardIssue=80, wReset=2, wExitEnter=2, wQuery=2),
     'mirror-fine': dict(BASE, verboseMethods=1, logAnswers=1, structDump=1, kinds=0x31, palette=2, fineUtil=1, pGuardCancel=0, pGuardIssue=0, pIssue=20, maxBatch=1, wReset=2, wImmediate=6),
+    'mirror-serial': dict(BASE, verboseMethods=1, logAnswers=1, structDump=1, wSaveLoad=30, wExitEnter=3, wReset=1, pGuardCancel=40, pGuardIssue=30),
     'mirror-idle': dict(BASE, verboseMethods=1, logAnswers=1, structDump=1, pIssue=2, maxBatch=1, pGuardCancel=0, pGuardIssue=0, wQuery=0, wReact=0, wImmediate=1, wReset=0, wExitEnter=0),
     'mirror-plans': dict(BASE, verboseMethods=1, logAnswers=1, structDump=1, planDump=1, wPlanEdit=3, wExtStatus=2, pSucceed=150, pFail=40, pHeadStatus=50, pGuardCancel=40, pGuardIssue=20, pIssue=15, maxBatch=1),
     'burst':     dict(BASE, wOverlong=30, maxBatch=14, pIssue=300, pGuardIssue=500, pGuardCancel=120, wSaveLoad=10, wPlanEdit=3, wExtStatus=1, pSucceed=150, pFail=30, pPlanInCb=300, planDump=0, wReset=1, wExitEnter=1, wRecreate=10),
@@ -62,7 +63,7 @@ SHAPE_PROPS = {
     'C09': dict(profiles=['history', 'replica', 'single'], title='history'),
     'C11': dict(profiles=['ordinary', 'burst', 'alloc', 'memcheck'], title='memory safety / UB / assertions / allocation', flavours={'quick': ['clang-asan', 'gcc'], 'thorough': ['clang-asan', 'gcc-asan', 'gcc', 'clang-dev', 'gcc-O2']}),
     'C12': dict(profiles=['utility', 'utility-hostile', 'utility-fine'], title='utility / random selection'),
-    'C16': dict(profiles=['mirror', 'mirror-idle', 'mirror-plans', 'mirror-fine'], title='logger / structure report', flavours={'quick': ['gcc', 'clang', 'clang-vlog'], 'thorough': ['gcc', 'clang', 'clang-vlog', 'gcc17', 'clang-dev']}),
+    'C16': dict(profiles=['mirror', 'mirror-idle', 'mirror-plans', 'mirror-fine', 'mirror-serial'], title='logger / structure report', flavours={'quick': ['gcc', 'clang', 'clang-vlog'], 'thorough': ['gcc', 'clang', 'clang-vlog', 'gcc17', 'clang-dev']}),
     'C13': dict(profiles=['single', 'mixed', 'subst'], title='queries'),
     'C14': dict(profiles=['payload', 'payload-plans'], title='payloads'),
 }
@@ -173,6 +174,40 @@ def run_job(job):
     else: res['log'] = logp
     return res
 
+def run_unit(V, srcname, flavours, tier, seed, prefix, own_prop, sanitizer_prop=None):
+    """stand-alone harness under units/: build per flavour, run, fold its 'V key detail' lines into the verdict.
+    Returns {flavour: [comparisons, distinct]}"""
+    stats = {}
+    def job(fl):
+        src = open(os.path.join(vlib.VERIF, 'units', srcname)).read()
+        b, out = vlib.build_one(src, fl, name=srcname.split('.')[0])
+        if not b: return (fl, None, 'build failed: ' + out[:800], '')
+        rc_, so_, se_ = vlib.run_bin(b, [tier, str(seed)], timeout=1500, memcheck=fl.endswith('-vg'))
+        return (fl, rc_, so_, se_)
+    for fl, rc_, so_, se_ in vlib.pmap(job, flavours):
+        runinfo = {'cmd': 'units/%s %s %d' % (srcname, tier, seed), 'flavour': fl}
+        if rc_ is None: V.harness_errors.append('%s %s: %s' % (srcname, fl, so_.replace('\n', ' | ')[:500])); continue
+        skey = vlib.sanitizer_key(se_) if se_ else None
+        if not skey and rc_ == 99 and fl.endswith('-vg'): skey = 'memcheck:error'
+        sp = sanitizer_prop or own_prop
+        if skey:
+            if sp == V.prop: V.add(skey, 1, {'stderr': se_[-1500:], 'flavour': fl}, runinfo)
+            else: V.add_other(sp, skey, 1)
+        elif rc_ != 0: V.add('crash|rc=%d' % rc_, 1, {'stderr': se_[-800:], 'flavour': fl}, runinfo)
+        for line in so_.split('\n'):
+            if line.startswith('V '):
+                parts = line.split(' ', 2)
+                if own_prop == V.prop: V.add(prefix + parts[1], 1, {'detail': parts[2] if len(parts) > 2 else '', 'flavour': fl}, runinfo)
+                else: V.add_other(own_prop, prefix + parts[1], 1)
+            elif line.startswith('B '):
+                import check_log
+                pp = line.split(); key = 'assert|' + check_log.assert_key(pp[1], int(pp[2]))
+                if V.prop == 'C11': V.add(key, 1, {'flavour': fl}, runinfo)
+                else: V.add_other('C11', key, 1)
+            elif line.startswith('Z '):
+                z = [int(x) for x in line.split()[1:]]; stats[fl] = {'comparisons': z[0], 'experiments': z[1]}
+    return stats
+
 def shape_engine(prop, tier, seed, keep=False):
     conf = dict(SHAPE_PROPS[prop]); T = TIERS[tier]
     if os.environ.get('VERIF_PROFILES'): conf['profiles'] = os.environ['VERIF_PROFILES'].split(',')   # debugging aid
@@ -235,7 +270,14 @@ def shape_engine(prop, tier, seed, keep=False):
             for h in r.get('cfg_hashes', []): cfgacc.add(h)
             r['nt'] = {}; r['cfg_hashes'] = []
             results.append(r)
-    return adjudicate(V, prop, results, shapeset, flavours, dict(build_s=round(tb, 1), join_output_differs_from_single_header=joindiff), ntacc, cfgacc)
+    extra = dict(build_s=round(tb, 1), join_output_differs_from_single_header=joindiff)
+    if prop == 'C11':
+        # the instance flavours the shape harness cannot instantiate (no / pointer / value context), copies and moves with the source destroyed
+        extra['context_less_pointer_and_value_context_instances'] = run_unit(V, 'c10_ctxless.cpp', ['u-clang-asan', 'gcc-vg'] + (['u-gcc-O2'] if tier == 'thorough' else []), tier, seed, 'ctxless|', 'C10', sanitizer_prop='C11')
+        extra['copied_and_moved_instances_with_pending_tasks'] = run_unit(V, 'c14_copy_tasks.cpp', ['u-clang-asan'], tier, seed, 'copied-tasks|', 'C14', sanitizer_prop='C11')
+    if prop == 'C14':
+        extra['copied_and_moved_instances_with_pending_tasks'] = run_unit(V, 'c14_copy_tasks.cpp', ['u-gcc', 'u-clang-asan'] + (['u-gcc-O2', 'u-clang-O1'] if tier == 'thorough' else []), tier, seed, 'copied-tasks|', 'C14', sanitizer_prop='C11')
+    return adjudicate(V, prop, results, shapeset, flavours, extra, ntacc, cfgacc)
 
 def adjudicate(V, prop, results, shapeset, flavours, extra, nt0=None, cfg0=None):
     nt = set(nt0 or ()); cfgs = set(cfg0 or ()); stats = {}; samples = []; evals = 0; completed = 0
@@ -398,29 +440,8 @@ def c10_engine(prop, tier, seed, keep=False):
         for h in r['nt'].get('C10', []): distinct.add(h)
         evals += s['stats'].get('C10.lockstep-operations', 0)
     # instance flavours without a reference context (no context / pointer / value context, built-in generator): stand-alone harness
-    unit = {}
-    def unit_job(fl):
-        src = open(os.path.join(vlib.VERIF, 'units', 'c10_ctxless.cpp')).read()
-        b, out = vlib.build_one(src, fl, name='c10_ctxless')
-        if not b: return (fl, None, 'build failed: ' + out[:800], '')
-        rc_, so_, se_ = vlib.run_bin(b, [tier, str(seed)], timeout=1500, memcheck=fl.endswith('-vg'))
-        return (fl, rc_, so_, se_)
-    for fl, rc_, so_, se_ in vlib.pmap(unit_job, ['u-gcc', 'u-clang-asan', 'gcc-vg'] + (['u-gcc-O2', 'u-clang-O1'] if tier == 'thorough' else [])):
-        runinfo = {'cmd': 'units/c10_ctxless.cpp %s %d' % (tier, seed), 'flavour': fl}
-        if rc_ is None: V.harness_errors.append('c10_ctxless %s: %s' % (fl, so_.replace('\n', ' | ')[:500])); continue
-        skey = vlib.sanitizer_key(se_) if se_ else None
-        if skey: V.add(skey, 1, {'stderr': se_[-1500:], 'flavour': fl}, runinfo)
-        elif rc_ == 99: V.add('memcheck:error', 1, {'stderr': se_[-1500:], 'flavour': fl}, runinfo)
-        elif rc_ != 0: V.add('crash|rc=%d' % rc_, 1, {'stderr': se_[-800:], 'flavour': fl}, runinfo)
-        for line in so_.split('\n'):
-            if line.startswith('V '):
-                parts = line.split(' ', 2); V.add('ctxless|' + parts[1], 1, {'detail': parts[2] if len(parts) > 2 else '', 'flavour': fl}, runinfo)
-            elif line.startswith('B '):
-                import check_log
-                pp = line.split(); V.add_other('C11', 'assert|' + check_log.assert_key(pp[1], int(pp[2])), 1)
-            elif line.startswith('Z '):
-                z = [int(x) for x in line.split()[1:]]; unit[fl] = {'comparisons': z[0], 'copy/move experiments': z[1]}; evals += z[0]
-                distinct.add(('c10_ctxless', fl))
+    unit = run_unit(V, 'c10_ctxless.cpp', ['u-gcc', 'u-clang-asan', 'gcc-vg'] + (['u-gcc-O2', 'u-clang-O1'] if tier == 'thorough' else []), tier, seed, 'ctxless|', 'C10', sanitizer_prop='C10')
+    for fl, z in unit.items(): evals += z['comparisons']; distinct.add(('c10_ctxless', fl))
     cov = {'evaluations': evals, 'distinct_nontrivial': len(distinct), 'samples': samples,
            'rule': 'evaluations = API operations executed in differential runs (same program, seed and callback answers; instance storage pre-filled with 0x00/0xFF/0xA5/0x55/noise, at shifted addresses, on 4 threads under ThreadSanitizer, under valgrind memcheck) plus lock-step original/copy operations; distinct_nontrivial = distinct (shape, flavour, mode) differential experiments and (configuration, operation) pairs on which a copy was compared with its original',
            'variants_compared': variants, 'log_lines_compared': lines, 'copy_stats': stats, 'context_less_pointer_and_value_context_instances': unit, 'shapes': [s['name'] for s in allshapes], 'builtin_generator_shapes': [s['name'] for s in extra]}
